@@ -814,6 +814,26 @@ func genKflEval(r *Rand, tier string, emit func(sx.Sx)) {
 			}
 		}
 	}
+	// the same literals under == and !=, which compare the text of the numbers: against a small number of the
+	// record and against their own negation (a number never equals its negation unless it is zero)
+	{
+		ident := func(p string) node { return callNode(p, sx.A("noparams"), sx.A("nosel"), p) }
+		obj := func(kv ...sx.Sx) sx.Sx { return sx.L(append([]sx.Sx{sx.A("o")}, pairs(kv)...)...) }
+		for _, lit := range []string{"2147483648", "4294967296", "9007199254740992", "9223372036854775807", "9223372036854775808", "18446744073709551615", "18446744073709551616", "100000000000000000000"} {
+			v, _ := strconv.ParseFloat(lit, 64)
+			n := node{lit, sx.L(sx.A("num"), sx.A(strconv.FormatFloat(v, 'f', -1, 64)))}
+			pos := wrapU(n)
+			negl := node{"-" + lit, sx.L(sx.A("U"), sx.A("-"), wrapU(n).ast)}
+			for _, op := range []string{"==", "!="} {
+				for _, pr := range [][2]node{{wrapU(ident("seq")), pos}, {wrapU(ident("seq")), negl}, {pos, negl}, {negl, pos}, {wrapU(ident("neg")), negl}} {
+					l, rr := pr[0], pr[1]
+					q := node{l.text + " " + op + " " + rr.text, sx.L(sx.A("Q"), wrapC(l).ast, sx.A(op), wrapQ(wrapC(rr)).ast)}
+					e := wrapE(wrapL(q))
+					emit(sx.L(sx.S(e.text), e.ast, obj(sx.S("seq"), sInt(5), sx.S("neg"), sInt(-3))))
+				}
+			}
+		}
+	}
 	// negative zero: the literal -0 and a -0.0 of the record are numerically zero under every operator
 	{
 		ident := func(p string) node { return callNode(p, sx.A("noparams"), sx.A("nosel"), p) }
@@ -882,6 +902,7 @@ func genKflFuzz(r *Rand, tier string, emit func(sx.Sx)) {
 		"b.startsWith(r\"[\") and a == 5", "!(b == r\"(\") or a == 5", "d.e == r\"(?P<x\" and a == 5", "datetime(\"x\")", "a.datetime(1,2,3)", "redact(\"x.xml().a.b\")", "redact(\"xb.xml().a.b\")", "redact(\"j.json().k\", \"jb.json().k\")",
 		"redact(\"..\")", "redact(\"\")", "redact(\"$\")", "redact(\"[\")", "redact(1)", "redact(nil)", "redact(a)", "redact(\"g.json().x\")", "redact(\"c.json().x\")", "redact(\"x.xml()\")",
 		"x.xml()", "x.xml().a", "x.xml()..b", "x.xml()[0]", "g.xml().a", "g.json().a", "c.json().a", "d.json().e", "a.b.c.d.e.f", "c[99999999999999999999]", "c[-1]", "a[*]", "a.*.*.*",
+		"a.*(\"x\")", "a..(\"x\")", "b == \"hello\" or a.b.*(1, 2)", "http and request.headers.*(\"x\")", "a.*.b()", "a..b()", "c.*()", "d..()", "*.a()", "a.*.*(1)",
 		"", " ", "(", ")", "()", "((((", "and", "or or", "!", "-", "!!!!!!!!a", "--------a", "a ==", "== a", "a == == a", "\"", "\"abc", "r\"", "'c'", "`raw`", "a.b(", "a.b(,)", "a.b(x:)", "a.b(x: 1, y: 2, 3)",
 		"http and redis and http2", "a == 1e999", "a == 0x10", "a == 1_000", "a == .5.5", "\x00", "\xff\xfe", "日本語 == \"日本語\"", "a == \"\\\"\""}
 	for _, f := range fixed {
@@ -1053,7 +1074,14 @@ func genKflRedact(r *Rand, tier string, emit func(sx.Sx)) {
 		add("arr", sArr(sObj(sx.S("x"), sent(), sx.S("y"), sent()), sObj(sx.S("x"), sent()), sObj(sx.S("y"), sent())))
 		add("deep", sObj(sx.S("p"), sObj(sx.S("x"), sent(), sx.S("q"), sObj(sx.S("x"), sent()))))
 		add("j", sStr(nested))
-		add("jb", sStr(base64.StdEncoding.EncodeToString([]byte(nested))))
+		jb := base64.StdEncoding.EncodeToString([]byte(nested))
+		switch i % 5 { // base64 as MIME / PEM writers and the base64 tool emit it: in lines (the decoder skips CR and LF)
+		case 1:
+			jb = wrapLines(jb, 12, "\n")
+		case 3:
+			jb = wrapLines(jb, 7, "\r\n")
+		}
+		add("jb", sStr(jb))
 		add("num", sInt(42))
 		add("t", sx.A("true"))
 		record := sx.L(append([]sx.Sx{sx.A("o")}, pairs(fields)...)...)
@@ -1082,4 +1110,16 @@ func genKflRedact(r *Rand, tier string, emit func(sx.Sx)) {
 		e := wrapE(wrapL(wrapQ(wrapC(wrapU(call)))))
 		emit(sx.L(sx.S(q), e.ast, record, sx.L(plist...)))
 	}
+}
+
+// wrapLines breaks a text into lines of n characters
+func wrapLines(s string, n int, sep string) string {
+	var b strings.Builder
+	for len(s) > n {
+		b.WriteString(s[:n])
+		b.WriteString(sep)
+		s = s[n:]
+	}
+	b.WriteString(s)
+	return b.String()
 }
